@@ -52,6 +52,12 @@ def alphabet(n: int, rich: bool) -> list[tuple[Any, tuple, tuple]]:
     blk.append_gate(HGate(), 0)
     blk.append_gate(CNOTGate(), (0, 1))
     ops.append((CircuitGate(blk), (1, 0), ()))
+    # an already blocked part whose operation carries its own parameters
+    pblk = Circuit(2)
+    pblk.append_gate(RZGate(), 0, [0.1])
+    pblk.append_gate(CNOTGate(), (0, 1))
+    pblk.append_gate(RZGate(), 1, [0.2])
+    ops.append((CircuitGate(pblk), (0, 1), (0.7, -0.4)))
     return ops
 
 
